@@ -120,6 +120,11 @@ def wrappers(ctx):
                 if len(clos) != 1:
                     continue
                 cf = ctx.bin.fns[clos[0]]
+                # a wrapper is thin: apart from the core it calls nothing of the crate (a feature that calls the core with a
+                # filter of its own is a client of the cascade, not one of its two entry points)
+                if any(c3.get("res_local") and c3.get("res") in ctx.bin.fns and c3.get("res") != core.id
+                       and not c3["span"][4].startswith("macro:") for _b3, c3 in f.calls()):
+                    continue
                 real_calls = [c2 for _b, c2 in cf.calls() if not c2["span"][4].startswith("macro:")]
                 if not real_calls:
                     non_ex.append(f.id)
@@ -229,6 +234,11 @@ def r5c_selfref_pairing(ctx):
         if fid in (non_ex, ex):
             continue
         f = ctx.bin.fns[fid]
+        # the obligation is about resolving USAGES: a function whose family never handles a FixtureUsage (it resolves names
+        # it enumerates itself, e.g. the definitions of a file) has no self-named parameter to get wrong
+        fam = [g for g in ctx.bin.real_fns() if g.root == f.root]
+        if not any(sel.USAGE in g.local_adts(l) for g in fam for l in range(len(g.locals))):
+            continue
         n += 1
         key = "R5c|%s" % fid
         if d["N"] and not d["X"]:
@@ -426,6 +436,8 @@ def r4c_order_sensitive(ctx):
         if s.klass == "extremum":
             r.ok(sample={"site": s.descr(), "fn": s.fn.id.split("::")[-1], "order": "independent (extremum by %s)" % s.key_field})
             continue
+        if s.kind == "push" and not s.dedup:
+            continue  # every matching element is collected: nothing is selected (the order of the result is R4a's business)
         n += 1
         key = "R4c|%s" % keys[id(s)]
         # any equality test of the element's file_path against a value that is not computed from the element itself
